@@ -81,7 +81,7 @@ type modSet struct {
 	fields map[string]map[int]bool // heap key -> field indices (-1 = whole object)
 	heapT  map[string]types.Type
 	bases  map[string]map[int]*baseSet // which objects: unknown (any), given SSA pointer values, objects allocated in the region
-	all    bool // unknown callee: anything
+	all    bool                        // unknown callee: anything
 }
 
 type baseSet struct {
